@@ -718,7 +718,14 @@ pub fn run_trace(w: &mut World, trace: &[Event]) -> TraceOutcome {
                 });
                 let model_ok = w.model_accepts(range, *allow_missing);
                 if verdict != Verdict::Accepted && model_ok {
-                    if dirty {
+                    // the strict "fault-free => must succeed" form is for verifying what was
+                    // restored; verifying a range that was never restored (with gaps allowed)
+                    // is not an honest restore of that range
+                    let covered = match (range.bounds(w.cfg.beacon()), w.cfg.restore_range.bounds(w.cfg.beacon())) {
+                        (Some((a, b)), Some((c, d))) => a >= c && b <= d,
+                        _ => false,
+                    };
+                    if dirty || !covered {
                         w.hit("obs_model_accepts_client_rejects");
                     } else {
                         out.violations.push(CaseViolation {
@@ -835,7 +842,7 @@ struct EnumCfg {
     trios: u64,
     range: RangeCfg,
     allow_missing: bool,
-    /// ordered pairs (i, j), i != j; otherwise unordered i < j
+    /// also enumerate every ordered pair (i, j), i != j, of single faults
     pairs: bool,
 }
 
@@ -1024,15 +1031,16 @@ fn generate_sampled(rng: &mut Rng) -> (Config, Vec<Event>) {
 pub fn plan(tier: Tier, real: Vec<String>, stub: Vec<String>) -> Option<Plan> {
     let e = enum_runs(tier);
     let cases: u64 = enum_configs(tier).iter().map(enum_case_count).sum();
+    // sampled runs: one scenario each in the quick tier, 10 each in the thorough tier
     let sampled = match tier {
         Tier::Quick => 6_000,
-        Tier::Thorough => 600_000,
+        Tier::Thorough => 250_000,
     };
     Some(Plan {
         runs: e + sampled,
         level: "fault_enumeration",
         rule: format!(
-            "runs 0..{e} enumerate, in chunks of {CHUNK} cases, for databases of 1, 2 and 3 certified trios (+ the in-progress trio), every verified range shape (full / from / up-to / inner) and allow_missing in {{false,true}}: the fault-free case, every single fault of the canonical alphabet (per file: bit flip, truncate, zero-fill, delete; every unordered content swap; every copy f->g incl. from the in-progress trio; every rename f->g onto another certified name, onto the unpadded alias and out of range; 8 stray files; per digest-list entry: rename to alias / out of range, drop, duplicate; every pair of entries with swapped digests; added entries, reversed, rotated, list of beacon-1 and beacon+1, truncated artifact) and every ORDERED pair of two different single faults ({}); {cases} cases in total, each = apply faults to the honestly restored directory / served list, run the real verification, judge with the model. runs {e}.. are sampled: 1-12 trios, seeded restore range, 1-3 rounds of (0-4 faults with random arguments, optional real re-download over the damaged directory, verify with seeded range / allow_missing); ~15% fault-free. 'evaluations' counts runs; counter sim_cases counts verifications judged. A run is non-trivial iff at least one verification was judged and, unless the run is fault-free by construction, at least one fault changed the directory or the served list before it. distinct = distinct hash of (database shape, sequence of effective fault kinds and verdicts).",
+            "runs 0..{e} enumerate, in chunks of {CHUNK} cases, for databases of 1, 2 and 3 certified trios (+ the in-progress trio), every verified range shape (full / from / up-to / inner) and allow_missing in {{false,true}}: the fault-free case, every single fault of the canonical alphabet (per file: bit flip, truncate, zero-fill, delete; every unordered content swap; every copy f->g incl. from the in-progress trio; every rename f->g onto another certified name, onto the unpadded alias and out of range; 8 stray files; per digest-list entry: rename to alias / out of range, drop, duplicate; every pair of entries with swapped digests; added entries, reversed, rotated, list of beacon-1 and beacon+1, truncated artifact) and every ORDERED pair of two different single faults ({}); {cases} cases in total, each = apply faults to the honestly restored directory / served list, run the real verification, judge with the model. runs {e}.. are sampled (one scenario per run in the quick tier, 10 per run in the thorough tier, counter probe_sampled_scenarios): 1-12 trios, seeded restore range, 1-3 rounds of (0-4 faults with random arguments, optional real re-download over the damaged directory, verify with seeded range / allow_missing); ~15% fault-free. 'evaluations' counts runs; counter sim_cases counts verifications judged. A run is non-trivial iff at least one verification was judged and, unless the run is fault-free by construction, at least one fault changed the directory or the served list before it. distinct = distinct hash of (database shape, sequence of effective fault kinds and verdicts).",
             match tier {
                 Tier::Thorough => "all configurations",
                 Tier::Quick => "quick tier: all configurations of 1-2 trios, and for 3 trios the full and the inner range; the other 3-trio configurations get the singles only",
@@ -1053,16 +1061,15 @@ pub fn plan(tier: Tier, real: Vec<String>, stub: Vec<String>) -> Option<Plan> {
     })
 }
 
-fn tier_of(ctx: &sim_core::RunCtx) -> Tier {
-    ctx.tier
-}
-
-fn group(violations: &[(Vec<Event>, CaseViolation)]) -> Vec<Violation> {
-    let mut groups: BTreeMap<(String, Option<&'static str>), Vec<&(Vec<Event>, CaseViolation)>> = BTreeMap::new();
+fn group(violations: &[(Config, Vec<Event>, CaseViolation)]) -> Vec<Violation> {
+    let mut groups: BTreeMap<(String, Option<&'static str>), Vec<&(Config, Vec<Event>, CaseViolation)>> = BTreeMap::new();
     for v in violations {
-        groups.entry((v.1.clause.clone(), v.1.finding)).or_default().push(v);
+        groups.entry((v.2.clause.clone(), v.2.finding)).or_default().push(v);
     }
-    groups
+    let mut ordered: Vec<_> = groups.into_iter().collect();
+    // the canonical clause first: the runner keeps the first example it sees per finding
+    ordered.sort_by_key(|((clause, _), _)| (clause != "accepted-wrong-content", clause.clone()));
+    ordered
         .into_iter()
         .map(|((clause, finding), vs)| Violation {
             property: PROPERTY.into(),
@@ -1070,8 +1077,8 @@ fn group(violations: &[(Vec<Event>, CaseViolation)]) -> Vec<Violation> {
             detail: format!(
                 "{} case(s); e.g. after {}: {}",
                 vs.len(),
-                serde_json::to_string(&vs[0].0.iter().filter(|e| e.is_fault()).collect::<Vec<_>>()).unwrap_or_default(),
-                vs[0].1.detail
+                serde_json::to_string(&vs[0].1.iter().filter(|e| e.is_fault()).collect::<Vec<_>>()).unwrap_or_default(),
+                vs[0].2.detail
             ),
             finding: finding.map(str::to_string),
         })
@@ -1108,22 +1115,28 @@ fn minimise(node: &ClientNode, cfg: &Config, trace: &[Event], clause: &str) -> V
     min
 }
 
+/// sampled scenarios per run: 1 in the quick tier, 10 in the thorough tier (see `c19::batch_of`)
+fn sampled_batch(tier: Tier) -> u64 {
+    match tier {
+        Tier::Quick => 1,
+        Tier::Thorough => 10,
+    }
+}
+
 pub fn run(ctx: &sim_core::RunCtx) -> RunReport {
     let node = client::node();
     let mut report = RunReport::new(ctx.run);
-    let tier = tier_of(ctx);
+    let tier = ctx.tier;
     let mut digest = Fingerprint::new();
     let mut fp = Fingerprint::new();
-    let mut all: Vec<(Vec<Event>, CaseViolation)> = Vec::new();
-    let cfg;
-    let mut effective_any = false;
+    let mut all: Vec<(Config, Vec<Event>, CaseViolation)> = Vec::new();
+    let mut nontrivial = false;
     let mut judged = 0u64;
-    let fault_free_by_construction;
     let mut sample_cases: Vec<Value> = Vec::new();
 
     if let Some((ec, first, end)) = enum_slice(tier, ctx.run) {
         // enumeration chunk: the database is a function of the seed and the shape only
-        cfg = Config {
+        let cfg = Config {
             content_seed: Rng::for_run(ctx.seed, "C10-enum-db", ec.trios).next_u64(),
             trios: ec.trios,
             with_next: true,
@@ -1131,12 +1144,12 @@ pub fn run(ctx: &sim_core::RunCtx) -> RunReport {
             digest_serving: DigestServing::Aggregator,
             restore_range: RangeCfg::Full,
         };
-        fault_free_by_construction = false;
         let singles = single_faults(ec.trios);
         let mut w = World::new(node, &cfg);
         let (dir0, list0) = (w.dir.clone(), w.list.clone());
         fp.add("enum").add_u64(ec.trios).add(ec.range.kind()).add_u64(ec.allow_missing as u64).add_u64(first);
         digest.add(&format!("{ec:?} {first}..{end}"));
+        let mut effective_any = false;
         for idx in first..end {
             let mut trace = enum_case(&singles, idx);
             trace.push(Event::Verify { range: ec.range.clone(), allow_missing: ec.allow_missing });
@@ -1159,57 +1172,66 @@ pub fn run(ctx: &sim_core::RunCtx) -> RunReport {
                     "objections": out.violations.iter().map(|v| format!("[{}] {}", v.clause, v.detail)).collect::<Vec<_>>()}));
             }
             for v in out.violations {
-                all.push((trace.clone(), v));
+                all.push((cfg.clone(), trace.clone(), v));
             }
         }
+        nontrivial = judged > 0 && effective_any;
+        report.states.push(fp.value());
         report.hit("probe_enumeration_chunks");
         report.count("sim_enumerated_cases", end - first);
         for (k, v) in &w.stats {
             report.count(k, *v);
         }
     } else {
-        let mut rng = Rng::for_run(ctx.seed, PROPERTY, ctx.run);
-        let (c, trace) = generate_sampled(&mut rng);
-        cfg = c;
-        fault_free_by_construction = !trace.iter().any(Event::is_fault);
-        let mut w = World::new(node, &cfg);
-        digest.add(&serde_json::to_string(&cfg).unwrap()).add(&serde_json::to_string(&trace).unwrap());
-        let out = run_trace(&mut w, &trace);
-        judged += out.verdicts.len() as u64;
-        effective_any |= !out.effective_faults.is_empty();
-        fp.add("sampled").add_u64(cfg.trios).add(cfg.restore_range.kind());
-        for k in &out.effective_faults {
-            report.hit(&format!("fault_{k}"));
-            fp.add(k);
-        }
-        for e in &trace {
-            if let Event::Verify { range, allow_missing } = e {
-                fp.add(range.kind()).add_u64(*allow_missing as u64);
+        let batch = sampled_batch(tier);
+        let base = ctx.run - enum_runs(tier);
+        for k in 0..batch {
+            let mut rng = Rng::for_run(ctx.seed, PROPERTY, base * batch + k);
+            let (cfg, trace) = generate_sampled(&mut rng);
+            let fault_free_by_construction = !trace.iter().any(Event::is_fault);
+            let mut w = World::new(node, &cfg);
+            digest.add(&serde_json::to_string(&cfg).unwrap()).add(&serde_json::to_string(&trace).unwrap());
+            let out = run_trace(&mut w, &trace);
+            judged += out.verdicts.len() as u64;
+            let mut sfp = Fingerprint::new();
+            sfp.add("sampled").add_u64(cfg.trios).add(cfg.restore_range.kind());
+            for kind in &out.effective_faults {
+                report.hit(&format!("fault_{kind}"));
+                sfp.add(kind);
             }
-        }
-        fp.add(&format!("{:?}", out.verdicts));
-        digest.add(&format!("{:?}", out.verdicts));
-        for v in &out.violations {
-            digest.add(&v.clause).add(v.finding.unwrap_or("-"));
-        }
-        if ctx.want_sample {
-            sample_cases.push(json!({"config": cfg, "trace": trace, "verdicts": out.verdicts.iter().map(|v| format!("{v:?}")).collect::<Vec<_>>(),
-                "objections": out.violations.iter().map(|v| format!("[{}] {}", v.clause, v.detail)).collect::<Vec<_>>()}));
-        }
-        for v in out.violations {
-            all.push((trace.clone(), v));
-        }
-        report.hit("probe_sampled_runs");
-        for (k, v) in &w.stats {
-            report.count(k, *v);
+            for e in &trace {
+                if let Event::Verify { range, allow_missing } = e {
+                    sfp.add(range.kind()).add_u64(*allow_missing as u64);
+                }
+            }
+            sfp.add(&format!("{:?}", out.verdicts));
+            fp.add_u64(sfp.value());
+            report.states.push(sfp.value());
+            nontrivial |= !out.verdicts.is_empty() && (fault_free_by_construction || !out.effective_faults.is_empty());
+            digest.add(&format!("{:?}", out.verdicts));
+            for v in &out.violations {
+                digest.add(&v.clause).add(v.finding.unwrap_or("-"));
+            }
+            if ctx.want_sample && k == 0 {
+                sample_cases.push(json!({"config": cfg, "trace": trace, "verdicts": out.verdicts.iter().map(|v| format!("{v:?}")).collect::<Vec<_>>(),
+                    "objections": out.violations.iter().map(|v| format!("[{}] {}", v.clause, v.detail)).collect::<Vec<_>>()}));
+            }
+            for v in out.violations {
+                all.push((cfg.clone(), trace.clone(), v));
+            }
+            report.hit("probe_sampled_scenarios");
+            for (key, v) in &w.stats {
+                report.count(key, *v);
+            }
         }
     }
 
     report.count("sim_cases", judged);
     report.violations = group(&all);
-    report.nontrivial = judged > 0 && (fault_free_by_construction || effective_any);
+    report.nontrivial = nontrivial;
     report.fingerprint = fp.value();
-    report.states.push(fp.value());
+    report.states.sort_unstable();
+    report.states.dedup();
     report.digest = digest.value();
     if ctx.want_sample {
         report.sample = Some(json!({"run": ctx.run, "cases": sample_cases}));
@@ -1218,11 +1240,11 @@ pub fn run(ctx: &sim_core::RunCtx) -> RunReport {
         let known = sim_core::findings::Findings::load();
         let pick = all
             .iter()
-            .find(|(_, v)| v.finding.is_none())
-            .or_else(|| all.iter().find(|(_, v)| !v.finding.is_some_and(|id| known.is_known(PROPERTY, id))));
+            .find(|(_, _, v)| v.finding.is_none())
+            .or_else(|| all.iter().find(|(_, _, v)| !v.finding.is_some_and(|id| known.is_known(PROPERTY, id))));
         report.replay = Some(match pick {
-            Some((trace, v)) => replay_doc(&cfg, &minimise(node, &cfg, trace, &v.clause)),
-            None => replay_doc(&cfg, &all[0].0),
+            Some((cfg, trace, v)) => replay_doc(cfg, &minimise(node, cfg, trace, &v.clause)),
+            None => replay_doc(&all[0].0, &all[0].1),
         });
     }
     report
@@ -1238,7 +1260,7 @@ pub fn replay(doc: &Value) -> RunReport {
     let out = run_trace(&mut w, &trace);
     let mut report = RunReport::new(0);
     eprintln!("  verdicts: {:?}", out.verdicts);
-    let all: Vec<(Vec<Event>, CaseViolation)> = out.violations.into_iter().map(|v| (trace.clone(), v)).collect();
+    let all: Vec<(Config, Vec<Event>, CaseViolation)> = out.violations.into_iter().map(|v| (cfg.clone(), trace.clone(), v)).collect();
     report.violations = group(&all);
     let _ = w.scratch_path();
     report
